@@ -199,22 +199,25 @@ func (w c13SignalWriter) Write(p []byte) (int, error) { close(w.ch); return len(
 // ================================================================= interleaving oracle
 
 // c13Interleaves: is the event list an interleaving (at write granularity) of the byte
-// sequences a and b? CR/LF-only writes may additionally be skipped when sepOK (the separators
-// the library writes to Output()).
-func c13Interleaves(events []string, a, b string, sepOK bool) bool {
-	type st struct{ i, j int }
-	cur := map[st]bool{{0, 0}: true}
+// sequences seqs (one per goroutine that dumps: request writer, response head reader, body
+// reader)? CR/LF-only writes may additionally be skipped when sepOK (separators).
+func c13Interleaves(events []string, seqs []string, sepOK bool) bool {
+	key := func(pos []int) string { return fmt.Sprint(pos) }
+	cur := map[string][]int{}
+	start := make([]int, len(seqs))
+	cur[key(start)] = start
 	for _, e := range events {
-		next := map[st]bool{}
-		for s := range cur {
-			if strings.HasPrefix(a[s.i:], e) {
-				next[st{s.i + len(e), s.j}] = true
-			}
-			if strings.HasPrefix(b[s.j:], e) {
-				next[st{s.i, s.j + len(e)}] = true
+		next := map[string][]int{}
+		for _, pos := range cur {
+			for i, sq := range seqs {
+				if e != "" && strings.HasPrefix(sq[pos[i]:], e) {
+					np := append([]int{}, pos...)
+					np[i] += len(e)
+					next[key(np)] = np
+				}
 			}
 			if sepOK && strings.Trim(e, "\r\n") == "" {
-				next[s] = true
+				next[key(pos)] = pos
 			}
 		}
 		if len(next) == 0 {
@@ -222,7 +225,18 @@ func c13Interleaves(events []string, a, b string, sepOK bool) bool {
 		}
 		cur = next
 	}
-	return cur[st{len(a), len(b)}]
+	for _, pos := range cur {
+		done := true
+		for i, sq := range seqs {
+			if pos[i] != len(sq) {
+				done = false
+			}
+		}
+		if done {
+			return true
+		}
+	}
+	return false
 }
 
 // ================================================================= HTTP/1.1 capture peer
@@ -826,7 +840,7 @@ type c13Pending struct {
 	why              []string
 	modelLine        string
 	tokens           map[string]string // token -> bytes
-	reqSide          map[string]bool   // token is a request-side part
+	seqOf            map[string]int    // token -> dumping goroutine: 0 request writer, 1 response head reader, 2 body reader
 	log              *c13Log
 	outputs          map[int]bool // writer ids that are an Output() (separators allowed)
 	nontrivial       bool
@@ -854,22 +868,18 @@ func c13Judge(p *c13Pending, answer string) {
 		ids[id] = true
 	}
 	for id := range ids {
-		var a, b strings.Builder
+		seqs := make([]string, 3)
 		for _, tk := range want[id] {
-			if p.reqSide[tk] {
-				a.WriteString(p.tokens[tk])
-			} else {
-				b.WriteString(p.tokens[tk])
-			}
+			seqs[p.seqOf[tk]] += p.tokens[tk]
 		}
 		ev := p.log.of(id)
 		// CR/LF-only writes are separators wherever they land: the library writes "\r\n" /
 		// "\r\n\r\n" to Output() after bodies, and the last CRLF of a chunked upload passes
 		// through the request-body wrapper.
-		if !c13Interleaves(ev, a.String(), b.String(), true) {
+		if !c13Interleaves(ev, seqs, true) {
 			got := strings.Join(ev, "")
-			p.why = append(p.why, fmt.Sprintf("writer %d: %d writes / %d bytes do not match the expected dump (request side %d bytes, response side %d bytes; parts %q); got %q",
-				id, len(ev), len(got), a.Len(), b.Len(), want[id], c13Clip(got, 200)))
+			p.why = append(p.why, fmt.Sprintf("writer %d: %d writes / %d bytes do not match the expected dump (request side %d bytes, response head %d bytes, response body %d bytes; parts %q); got %q",
+				id, len(ev), len(got), len(seqs[0]), len(seqs[1]), len(seqs[2]), want[id], c13Clip(got, 200)))
 		}
 	}
 }
@@ -945,7 +955,7 @@ func TestVerif_C13_e2eh1(t *testing.T) {
 		on, hung := c13Guard(timeout+margin, func() c13RunOut { return c13RunH1(peer, sc, &cfg, viaSet, timeout) })
 		p := &c13Pending{
 			id:    fmt.Sprintf("h1 #%d %s %s %s", c, sc.name, cfg.String(), sc.method),
-			class: sc.class, log: on.log, tokens: map[string]string{}, reqSide: map[string]bool{},
+			class: sc.class, log: on.log, tokens: map[string]string{}, seqOf: map[string]int{},
 			outputs: map[int]bool{10: true, 20: true}, nontrivial: true,
 		}
 		p.human = fmt.Sprintf("%s %s body=%dB via %q; %s; result %s", sc.method, sc.name, len(sc.body), sc.bodyVia, cfg.String(), c13Clip(off.res.String(), 160))
@@ -1001,7 +1011,7 @@ func TestVerif_C13_e2eh1(t *testing.T) {
 				if content != "" {
 					tk = fmt.Sprintf("%c%c%c", 'A'+i, "hbHB"[j], '.')
 					p.tokens[tk] = content
-					p.reqSide[tk] = j < 2
+					p.seqOf[tk] = []int{0, 0, 1, 2}[j]
 				}
 				parts = append(parts, tk)
 			}
